@@ -76,7 +76,11 @@ CLAIMED = {
          "chain handed in plus the observers registered BEFORE them at this level, in order; nested blueprints are queued with a copy of "
          "the chain as it stood; process_error_observer appends exactly the interned observer; no other function touches the observer "
          "table; the next stage, ComponentDb::compute_request2error_observer_chain, translates each handler's observer chain to component "
-         "ids in order, dropping only the members without a component id. The whole-tree statement is checked by the same bounded "
+         "ids in order, dropping only the members without a component id. And 'the error handler registered for that error type' is "
+         "designated the same way constructors are (unit c06_handlers): ErrorHandlersDb::get_or_try_bind — the same breadth-first walk "
+         "over the scope graph as C04's, here through get_mut — returns what the nearest enclosing scope that has a handler for the "
+         "type offers (None only if no enclosing scope has one), equals the functional spec designated(..), terminates, and leaves every "
+         "lookup's answer as it was. The whole-tree statement is checked by the same bounded "
          "model-based native search (labelled bounded)."),
    note=("NOT decided — and this is most of C06: that nothing depending on an Ok value runs after an Err, that the right error handler runs "
          "exactly once, that observers run after it and before the response leaves: match-branch injection in core_graph.rs over ComponentDb "
@@ -135,10 +139,11 @@ CLAIMED = {
          "accepted the blueprint AND code generation succeeded', which Verus discharges at its call site; a rejected blueprint never "
          "exits 0; exit 0 implies both verdicts were positive. With C10's obligations on the same text (no write primitive is reachable "
          "under --check, every SDK write goes through the writer) this is the statement's second sentence for every blueprint. "
-         "Of the first sentence ('terminates'), two loops of the compiler are proved to terminate on the real text, for every input "
+         "Of the first sentence ('terminates'), several loops of the compiler are proved to terminate on the real text, for every input "
          "(obligations tagged @C09 in the C05 and C04 units): the work-list walk over the blueprint tree in process_blueprint (measure: "
-         "nested blueprints still to be processed, a recursive function over the schema) and the breadth-first scope walk of "
-         "ConstructibleDb::get (measure: upward paths from the queued scopes, on a graph whose parents have smaller ids)."),
+         "nested blueprints still to be processed, a recursive function over the schema), the breadth-first scope walks of "
+         "ConstructibleDb::get and ErrorHandlersDb::get_or_try_bind (measure: upward paths from the queued scopes, on a graph whose parents "
+         "have smaller ids), the descent of ScopeBasedFallbackTree::find_fallback_id and every loop of the extracted rule checks."),
    note=("NOT decided: termination of everything else, panic-freedom and 'at least one error diagnostic is printed' are properties of the whole 26 kLoC "
          "compiler behind App::build (Verus rejects its text, Kani proves no termination); a failing I/O operation half-way through "
          "GeneratedApp::persist (manifest written, lib.rs not) is outside the quantifier (it ranges over blueprints). No native replay: "
